@@ -114,6 +114,7 @@ def run(tier, seed):
             ck.cov["states"] += run_["distinct_states"]
             ck.cov["transitions"] += run_["states_generated"]
             ck.cov["tlc_runs"].append(run_)
+    thresholds_phase(ck, tier)
     ck.cov["distinct_nontrivial"] = len(hs) * len(doms)
     ck.cov["rule"] = ("(1) %d seeded chains of 30-45 widening steps (values growing linearly in every variable, relational constraints "
                       "drifting, optional threshold sets) x every domain: strict increases <= %d and last %d steps stationary; "
@@ -124,5 +125,56 @@ def run(tier, seed):
     return ck.finish()
 
 
+def thresholds_phase(ck, tier):
+    """(5) crab::thresholds as a state machine (spec/Thresholds.tla): TLC checks the design-level invariants on every reachable
+    state and prints one history per state; every history is replayed on the real class and judged step by step"""
+    build("thr_runner")
+    K, maxlen = (3, 4) if tier == "quick" else (4, 5)
+    env = {"THR_K": K, "THR_MAXLEN": maxlen, "THR_RECORDS": "/dev/null"}
+    r = tlc("Thresholds", "Thresholds", "c05-thresholds-model", env=env, workers=1, timeout=1500)
+    ck.add_tlc(r, "Thresholds(K=%d,adds<=%d)" % (K, maxlen))
+    if r.is_violation or not r.ok:
+        raise vlib.Broken("the thresholds machine violates its own invariants:\n" + r.out[-3000:])
+    hs = []
+    for cap, adds in {(x[0], x[1]) for x in r.tuples("H")}:
+        hs.append({"cap": cap, "adds": json.loads(adds), "k": K})
+    hs.sort(key=lambda h: (h["cap"], len(h["adds"]), h["adds"]))
+    wd = vlib.workdir("c05-thresholds")
+    hp, op_ = os.path.join(wd, "h.ndjson"), os.path.join(wd, "o.ndjson")
+    vlib.write_ndjson(hp, hs)
+    rc, out = vlib.sh([os.path.join(vlib.BUILD, "bin", "thr_runner"), hp, op_], timeout=600)
+    if rc != 0:
+        raise vlib.Broken("thr_runner failed: " + out[-1500:])
+    recs = vlib.read_ndjson(op_)
+    if len(recs) != len(hs):
+        raise vlib.Broken("thr_runner answered %d of %d histories" % (len(recs), len(hs)))
+    env["THR_RECORDS"] = op_
+    rj = tlc("Thresholds", "ThresholdsJudge", "c05-thresholds-judge", env=env, cont=True, timeout=1500)
+    ck.add_tlc(rj, "ThresholdsJudge")
+    ck.cov["traces_validated_against_impl"] += len(recs)
+    ck.cov["thresholds"] = {"values": [-K, K], "max_adds": maxlen, "capacities": [2, 3, 4, 5, "unbounded"], "histories_replayed": len(recs),
+                            "reachable_states": r.distinct}
+    for f in sorted({tuple(x) for x in rj.tuples("FAIL")})[:5]:
+        rec = recs[f[0] - 1]
+        ck.violation("crab::thresholds (capacity %s) differs from the model after adds %s: vector / get_next / get_prev" % (f[1], f[2]),
+                     {"thresholds": rec})
+    if rj.is_violation and not rj.tuples("FAIL"):
+        raise vlib.Broken("ThresholdsJudge violated without FAIL record:\n" + rj.out[-2000:])
+
+
 def replay(path):
+    case = json.load(open(path))["case"]
+    if "thresholds" in case:
+        ck = Check("C05", "quick", 0)
+        build("thr_runner")
+        wd = vlib.workdir("c05-thresholds-replay")
+        hp, op_ = os.path.join(wd, "h.ndjson"), os.path.join(wd, "o.ndjson")
+        K = (len(case["thresholds"]["next"]) - 3) // 2
+        vlib.write_ndjson(hp, [{"cap": case["thresholds"]["cap"], "adds": case["thresholds"]["adds"], "k": K}])
+        rc, out = vlib.sh([os.path.join(vlib.BUILD, "bin", "thr_runner"), hp, op_], timeout=600)
+        rj = tlc("Thresholds", "ThresholdsJudge", "c05-thresholds-replay", env={"THR_K": K, "THR_MAXLEN": 9, "THR_RECORDS": op_}, cont=True)
+        ck.add_tlc(rj, "ThresholdsJudge")
+        if rj.is_violation:
+            ck.violation("replayed: thresholds differ from the model", case)
+        return ck.finish()
     return c03.replay(path)
